@@ -140,6 +140,9 @@ def run(ck):
         ck.apalache("AP_ScalarSub52", 2, "Scalar52::sub = (a - b) mod l for ALL reduced 52-bit-limb operands (borrow chain + masked add-back)", cinit="CSub", timeout=1500)
         ck.apalache("AP_ScalarSub52", 2, "Scalar52::add = (a + b) mod l for ALL reduced operands", cinit="CAdd", timeout=1500)
         ck.apalache("AP_MontReduce52", 2, "Scalar52::montgomery_reduce: r < l and r * 2^260 = T (mod l), no u128 overflow, for ALL nine-limb inputs with T < l * 2^260", cinit="CIn", timeout=2400)
+        ck.apalache("AP_ScalarSub29", 2, "Scalar29::sub = (a - b) mod l for ALL reduced 29-bit-limb operands (u32 borrow chain + masked add-back)", cinit="CSub", timeout=1500)
+        ck.apalache("AP_ScalarSub29", 2, "Scalar29::add = (a + b) mod l for ALL reduced operands", cinit="CAdd", timeout=1500)
+        ck.apalache("AP_MontReduce29", 2, "Scalar29::montgomery_reduce: r < l and r * 2^261 = T (mod l), no u64 overflow, for ALL seventeen-limb inputs with T < l * 2^261 (about 40 min)", cinit="CIn", timeout=5400)
     ck.apalache("AP_MontReduce52", 2, "kept counterexample: just above the documented input bound one conditional subtraction is not enough", cinit="COver", expect_violation=True)
     if not quick:
         pass
